@@ -43,7 +43,7 @@ def _check(pair):
         n = 0
         while ed.tighten_bounds():
             n += 1
-            if n > 100000:
+            if n > 1000000:
                 raise RuntimeError('no convergence')
         kept, removed, inserted = [], 0, 0
         srcpos = dstpos = 0
@@ -73,7 +73,8 @@ def _check(pair):
     except Exception as ex:
         fails.append({'what': f"{type(ex).__name__}: {ex}", 'class': f'c11-exception:{type(ex).__name__}'})
     for f in fails:
-        f['what'] += f" [{a!r} -> {b!r}]"
+        ab = lambda x: repr(x) if len(x) <= 60 else f"<{len(x)} chars: {x[:12]!r}...{x[-12:]!r}>"
+        f['what'] += f" [{ab(a)} -> {ab(b)}]"
         f['input'] = {'a': a, 'b': b}
         f['replay'] = {'kind': 'strings', 'a': a, 'b': b}
     return fails
@@ -119,11 +120,15 @@ def bounded(tier, seed, repo_root):
             else:
                 b.insert(rnd.randrange(len(b) + 1), rnd.choice(al))
         pairs.append((a, ''.join(b)))
-    res = pmap(_check, pairs, repo_root, chunksize=500)
+    # accumulated costs beyond 2**16 (the cost matrices are numpy arrays of fixed width; integers are mathematical in the VC
+    # generator): one pair whose strings differ by more than 65536 characters with a common character on the 2**16 contour
+    huge = [('-' * 65535 + 'b' + '---', 'b')]
+    res = pmap(_check, pairs, repo_root, chunksize=500) + pmap(_check, huge, repo_root, chunksize=1)
+    pairs = pairs + huge
     fails = [f for fs in res for f in fs]
     return [{
         'name': 'C11.lcs-reference', 'bound': f"all pairs of strings over {{a,b}} up to length {L2} and over {{a,b,c}} up to length {L3} and over {{a, U+20AC, U+03B2}} (non-Latin-1) up to length {4 if tier == 'quick' else 5} "
-        f"({n_ex} pairs, exhaustive) + {len(pairs) - n_ex} seeded longer pairs with repeats and shared prefixes/suffixes over ASCII, Greek, CJK, astral, combining and control characters",
+        f"({n_ex} pairs, exhaustive) + {len(pairs) - n_ex} seeded longer pairs with repeats and shared prefixes/suffixes over ASCII, Greek, CJK, astral, combining and control characters + 1 pair differing by more than 2**16 characters",
         'evaluations': len(pairs), 'distinct_nontrivial': len({p for p in pairs if p[0] != p[1]}), 'exhaustive': True,
         'rule': 'pair of strings -> string_edit_distance refined to fix-point: kept characters == LCS length and removed+inserted '
                 '== n+m-2*LCS; non-trivial = the strings differ',
